@@ -12,9 +12,8 @@ import Dashu.Model.NT.Log2
   `reprDiv`, `splitDigits`, `roundFract` (C03/C10) and builder-nt's bit-exact `log2_bounds` replica
   (C12) for the precision estimate of `with_base`.
 
-  `fixed : Bool`: `false` mirrors the code as it is, `true` the code after the repairs proposed in
-  `/verif/proposed_fixes/c08-*.diff`; the driver prints the `fixed := true` result (what the
-  property requires) and `known_findings.jsonl` absorbs the difference on the unpatched tree.
+  The model mirrors the code after the `fix:` commits 53ed19b, 16f6798, 2156b61, 003ffef, bd48ef9,
+  cb83f34 (defects found by this check; see the `fixed:` lines of `known_findings.jsonl`).
 -/
 namespace Dashu.Model.Text
 open Dashu.Model.Float
@@ -45,10 +44,10 @@ def parseIsize (bits : Nat) (s : List Nat) : Except ParseError Int :=
       if -(2 ^ (bits - 1) : Int) ≤ z ∧ z < (2 ^ (bits - 1) : Int) then .ok z else .error .invalidDigit
     else .error .invalidDigit
 
-/-- `UBig::from_str_radix` on an unsigned part of the literal.  `fixed`: a leading `+` is rejected
-    (the code accepts `1.+5` as `1.05` and `++5` as `5`). -/
-def parseUnsignedPart (W : Nat) (fixed : Bool) (s : List Nat) (radix : Nat) : Except ParseError Nat :=
-  if fixed && s.head? == some 43 then .error .invalidDigit
+/-- `parse_unsigned`: `UBig::from_str_radix` on an unsigned part of the literal; a leading `+` (which
+    `from_str_radix` would accept) is rejected -/
+def parseUnsignedPart (W : Nat) (s : List Nat) (radix : Nat) : Except ParseError Nat :=
+  if s.head? == some 43 then .error .invalidDigit
   else (parseRadix W false s radix).map Int.toNat
 
 -- ---------------------------------------------------------------- Repr::from_str_native
@@ -62,74 +61,99 @@ def isScaleMarker (B : Nat) (hasPrefix : Bool) (c : Nat) : Bool :=
   else if B = 16 then c == 104 || c == 72 || c == 64
   else c == 64
 
-/-- `Repr::<B>::from_str_native`: (significand, exponent, ndigits) before `Repr::new` -/
-def fromStrNativeRaw (W : Nat) (fixed : Bool) (B : Nat) (src0 : List Nat) : Except ParseError (Int × Int × Nat) := do
-  -- sign
-  let sb : Bool × List Nat := match src0 with
-    | 45 :: r => (true, r)
-    | 43 :: r => (false, r)
-    | r => (false, r)
-  let neg := sb.1
-  let src := sb.2
-  let hasPrefix := src.take 2 == [48, 120] || src.take 2 == [48, 88]
-  -- scale
-  let (scale, pmarker, src) ← match rfindIdx (isScaleMarker B hasPrefix) src with
-    | some pos => do
-      let v ← parseIsize 64 (src.drop (pos + 1))
-      let useP := B == 2 && (src.getD pos 0 == 112 || src.getD pos 0 == 80)
-      pure (v, useP, src.take pos)
-    | none => pure ((0 : Int), false, src)
-  -- body
-  let applyS (n : Nat) : Int := if neg then -(n : Int) else (n : Int)
+/-- the optional sign at the start of the literal -/
+def stripSignF : List Nat → Bool × List Nat
+  | 45 :: r => (true, r)
+  | 43 :: r => (false, r)
+  | r => (false, r)
+
+/-- `src.starts_with("0x") || src.starts_with("0X")` -/
+def hasHexPrefix (src : List Nat) : Bool := src.take 2 == [48, 120] || src.take 2 == [48, 88]
+
+/-- the scale part: position of the last marker, `parse::<isize>()` of what follows; returns
+    (scale, `p` marker used, body) -/
+def splitScale (B : Nat) (hasPrefix : Bool) (src : List Nat) : Except ParseError (Int × Bool × List Nat) :=
+  match rfindIdx (isScaleMarker B hasPrefix) src with
+  | some pos =>
+    match parseIsize 64 (src.drop (pos + 1)) with
+    | .error e => .error e
+    | .ok v => .ok (v, B == 2 && (src.getD pos 0 == 112 || src.getD pos 0 == 80), src.take pos)
+  | none => .ok (0, false, src)
+
+/-- the integral part of a literal with a radix point at byte `dot`: (value, digit count, radix of
+    the digits) -/
+def parseIntPart (W B : Nat) (hasPrefix pmarker : Bool) (src : List Nat) (dot : Nat) :
+    Except ParseError (Nat × Nat × Nat) :=
+  if dot ≠ 0 then
+    let intStr := src.take dot
+    if B == 2 && hasPrefix then
+      let intStr := intStr.drop 2
+      let digits := 4 * (intStr.length - countUs intStr)
+      if intStr = [] then .ok (0, digits, 16)
+      else match parseUnsignedPart W intStr 16 with
+        | .error e => .error e
+        | .ok v => .ok (v, digits, 16)
+    else if B == 2 && pmarker && !hasPrefix then .error .unsupportedRadix
+    else
+      match parseUnsignedPart W intStr B with
+      | .error e => .error e
+      | .ok v => .ok (v, intStr.length - countUs intStr, B)
+  else
+    if pmarker then .error .unsupportedRadix else .ok (0, 0, B)
+
+/-- the fractional part: (value, digit count in units of base `B`) -/
+def parseFracPart (W B base : Nat) (fsrc : List Nat) : Except ParseError (Nat × Nat) :=
+  if fsrc ≠ [] then
+    let d := fsrc.length - countUs fsrc
+    let d := if B == 2 && base == 16 then d * 4 else d
+    match parseUnsignedPart W fsrc base with
+    | .error e => .error e
+    | .ok v => .ok (v, d)
+  else .ok (0, 0)
+
+/-- the body of the literal (sign and scale removed): (magnitude, exponent decrement, ndigits) -/
+def parseBodyF (W B : Nat) (hasPrefix pmarker : Bool) (src : List Nat) : Except ParseError (Nat × Nat × Nat) :=
   match src.findIdx? (· == 46) with
   | some dot =>
     if src.length = 1 then .error .noDigits
     else
-      let (int, intDigits, base) ←
-        if dot ≠ 0 then
-          let intStr := src.take dot
-          if B == 2 && hasPrefix then
-            let intStr := intStr.drop 2
-            let digits := 4 * (intStr.length - countUs intStr)
-            if intStr = [] then pure (0, digits, 16)
-            else do
-              let v ← parseUnsignedPart W fixed intStr 16
-              pure (v, digits, 16)
-          else if B == 2 && pmarker && !hasPrefix then .error .unsupportedRadix
-          else do
-            let digits := intStr.length - countUs intStr
-            let v ← parseUnsignedPart W fixed intStr B
-            pure (v, digits, B)
-        else
-          if pmarker then .error .unsupportedRadix else pure (0, 0, B)
-      let fsrc := src.drop (dot + 1)
-      let (fract, fractDigits) ←
-        if fsrc ≠ [] then do
-          let d := fsrc.length - countUs fsrc
-          let d := if B == 2 && base == 16 then d * 4 else d
-          let v ← parseUnsignedPart W fixed fsrc base
-          pure (v, d)
-        else pure (0, 0)
-      let ndigits := intDigits + fractDigits
-      -- `fixed`: a literal without any digit (`0x.`) is rejected
-      if fixed && ndigits = 0 then .error .noDigits
-      else if fract = 0 then pure (applyS int, scale, ndigits)
-      else pure (applyS (int * B ^ fractDigits + fract), scale - fractDigits, ndigits)
+      match parseIntPart W B hasPrefix pmarker src dot with
+      | .error e => .error e
+      | .ok (int, intDigits, base) =>
+        match parseFracPart W B base (src.drop (dot + 1)) with
+        | .error e => .error e
+        | .ok (fract, fractDigits) =>
+          let ndigits := intDigits + fractDigits
+          -- a literal without any digit (`0x.`) is rejected
+          if ndigits = 0 then .error .noDigits
+          else if fract = 0 then .ok (int, 0, ndigits)
+          else .ok (int * B ^ fractDigits + fract, fractDigits, ndigits)
   | none =>
-    if B == 2 && hasPrefix then do
+    if B == 2 && hasPrefix then
       let s := src.drop 2
-      let ndigits := 4 * (s.length - countUs s)
-      let v ← parseUnsignedPart W fixed s 16
-      pure (applyS v, scale, ndigits)
+      match parseUnsignedPart W s 16 with
+      | .error e => .error e
+      | .ok v => .ok (v, 0, 4 * (s.length - countUs s))
     else if B == 2 && pmarker && !hasPrefix then .error .unsupportedRadix
-    else do
-      let ndigits := src.length - countUs src
-      let v ← parseUnsignedPart W fixed src B
-      pure (applyS v, scale, ndigits)
+    else
+      match parseUnsignedPart W src B with
+      | .error e => .error e
+      | .ok v => .ok (v, 0, src.length - countUs src)
+
+/-- `Repr::<B>::from_str_native`: (significand, exponent, ndigits) before `Repr::new` -/
+def fromStrNativeRaw (W : Nat) (B : Nat) (src0 : List Nat) : Except ParseError (Int × Int × Nat) :=
+  let sb := stripSignF src0
+  let hp := hasHexPrefix sb.2
+  match splitScale B hp sb.2 with
+  | .error e => .error e
+  | .ok (scale, pmarker, body) =>
+    match parseBodyF W B hp pmarker body with
+    | .error e => .error e
+    | .ok (mag, dec, nd) => .ok (if sb.1 then -(mag : Int) else (mag : Int), scale - (dec : Int), nd)
 
 /-- `FBig::from_str` / `from_str_native`: the normalised repr and the precision -/
-def fromStrNative (W : Nat) (fixed : Bool) (B : Nat) (src : List Nat) : Except ParseError (FRepr × Nat) :=
-  (fromStrNativeRaw W fixed B src).map (fun t => (FRepr.new B t.1 t.2.1, t.2.2))
+def fromStrNative (W : Nat) (B : Nat) (src : List Nat) : Except ParseError (FRepr × Nat) :=
+  (fromStrNativeRaw W B src).map (fun t => (FRepr.new B t.1 t.2.1, t.2.2))
 
 -- ---------------------------------------------------------------- specification of the literal grammar
 
@@ -187,10 +211,8 @@ def parseFloatSpec (B : Nat) (src0 : List Nat) : Except ParseError (FRepr × Nat
 
 -- ---------------------------------------------------------------- Display (`fmt_round`)
 
-/-- `Repr::fmt_round::<R>` for a finite value; `prec` = the formatter's precision option.
-    `fixed`: the radix point is counted for the width only when one is printed (the code counts it
-    whenever `exp ≤ 0` and no precision is given, also for `exp = 0` where none is printed). -/
-def fmtRound (fixed : Bool) (B : Nat) (m : Mode) (f : FmtSpec) (prec : Option Nat) (r : FRepr) : List Nat :=
+/-- `Repr::fmt_round::<R>` for a finite value; `prec` = the formatter's precision option -/
+def fmtRound (B : Nat) (m : Mode) (f : FmtSpec) (prec : Option Nat) (r : FRepr) : List Nat :=
   let negative := r.signif < 0
   let se : Int × Int := match prec with
     | some p =>
@@ -218,7 +240,7 @@ def fmtRound (fixed : Bool) (B : Nat) (m : Mode) (f : FmtSpec) (prec : Option Na
       let signifDigits := if leadingZeros = 0 then max signifStr.length 1 else signifStr.length
       let hasSign := if negative || f.plus then 1 else 0
       let hasPoint : Nat :=
-        if exp > 0 ∨ (fixed ∧ exp = 0) then (if prec.getD 0 > 0 then 1 else 0)
+        if exp ≥ 0 then (if prec.getD 0 > 0 then 1 else 0)
         else (if prec ≠ some 0 then 1 else 0)
       let width := signifDigits + hasSign + hasPoint + leadingZeros + trailingZeros
       if width ≥ minWidth then (0, 0)
@@ -252,10 +274,9 @@ def fmtRound (fixed : Bool) (B : Nat) (m : Mode) (f : FmtSpec) (prec : Option Na
          | none => [])
   head ++ body ++ rep pads.2 f.fill
 
-/-- `Repr::fmt_round_scientific::<R>(upper, use_hexadecimal = false, marker)` (`LowerExp`/`UpperExp`).
-    `fixed`: when rounding carries into a new digit (`9.99 → 10.0`) the significand is brought back to
-    `prec + 1` digits (the code prints `1.00e1` for `{:.1e}`). -/
-def fmtSci (fixed : Bool) (B : Nat) (m : Mode) (f : FmtSpec) (prec : Option Nat) (upper : Bool) (r : FRepr) : List Nat :=
+/-- `Repr::fmt_round_scientific::<R>(upper, use_hexadecimal = false, marker)` (`LowerExp`/`UpperExp`);
+    when rounding carries into a new digit (`9.99 → 10.0`) the last (zero) digit is dropped -/
+def fmtSci (B : Nat) (m : Mode) (f : FmtSpec) (prec : Option Nat) (upper : Bool) (r : FRepr) : List Nat :=
   let negative := r.signif < 0
   let se : Int × Int := match prec with
     | some p0 =>
@@ -267,7 +288,7 @@ def fmtSci (fixed : Bool) (B : Nat) (m : Mode) (f : FmtSpec) (prec : Option Nat)
         let adj := roundFract B m coarseNone hl.1 hl.2 shift
         let s := hl.1 + rInt adj
         let e := r.exp - diff
-        if fixed ∧ (digitsI B s : Int) > p then (Int.tdiv s B, e + 1) else (s, e)
+        if (digitsI B s : Int) > p then (Int.tdiv s B, e + 1) else (s, e)
       else (r.signif, r.exp)
     | none => (r.signif, r.exp)
   let signif := se.1
@@ -342,14 +363,13 @@ def thresholdSmallExp (W : Nat) : Int := (W * 60206 / 100000 : Nat)
 inductive ConvResult where
   | ok (r : Rounded FRepr)
   | unlimitedPrecision
-  | reprDivPanic                -- `repr_div` called outside its precondition (debug assertion)
   | lnExp                       -- the large-exponent branch (through `ln`/`exp`): not mirrored
   deriving Repr
 
 /-- single exact rounding of `num / den` (normalised reprs of the new base, `den > 0`) to `p` digits
     when the quotient of the significands has more than `p` digits: split the quotient and feed the
-    whole tail (low quotient digits and remainder) to `round_ratio` — the repair proposed for the
-    small-negative-exponent branch -/
+    whole tail (low quotient digits and remainder) to `round_ratio` (small-negative-exponent branch,
+    fix bd48ef9) -/
 def divRoundLong (NewB : Nat) (m : Mode) (p : Nat) (num den : FRepr) : Rounded FRepr :=
   let q := Int.tdiv num.signif den.signif
   let r := Int.tmod num.signif den.signif
@@ -364,10 +384,9 @@ def divRoundLong (NewB : Nat) (m : Mode) (p : Nat) (num den : FRepr) : Rounded F
     (FRepr.new NewB (hl.1 + rInt adj) exp, some adj)
 
 /-- `Context::<R>::convert_base::<B, NewB>(repr)` at precision `p` (finite input), as of commit
-    02e179b (every branch rounds to the target precision).
-    `fixed`: the small-negative-exponent branch does not hand `repr_div` a dividend that is longer than
-    `repr_div` supports (debug assertion in the code; an over-long, unrounded result in release). -/
-def convertBase (W : Nat) (fixed : Bool) (B NewB : Nat) (m : Mode) (p : Nat) (r : FRepr) : ConvResult :=
+    02e179b (every branch rounds to the target precision) and bd48ef9 (a dividend longer than
+    `repr_div` supports is rounded once through `round_ratio`). -/
+def convertBase (W : Nat) (B NewB : Nat) (m : Mode) (p : Nat) (r : FRepr) : ConvResult :=
   if NewB = B then .ok (r, none)
   else
     let up := if NewB > B then ilogExact NewB B else 0
@@ -386,9 +405,7 @@ def convertBase (W : Nat) (fixed : Bool) (B NewB : Nat) (m : Mode) (p : Nat) (r 
         let num := FRepr.new NewB r.signif 0
         let den := FRepr.new NewB ((B ^ (-r.exp).toNat : Nat) : Int) 0
         if num.digits NewB > p + den.digits NewB then
-          if fixed then
-            .ok (divRoundLong NewB m p num den)
-          else .reprDivPanic
+          .ok (divRoundLong NewB m p num den)
         else
           match reprDiv NewB m p num den with
           | .ok v => .ok v
@@ -403,13 +420,13 @@ def withBasePrecisionEst (W B NewB p : Nat) : Nat :=
   let q := lb / ub
   if q.isNaN then 0 else q.floor.toUInt64.toNat
 
-/-- the precision `FBig::with_base` hands to `with_base_and_precision`.
-    `fixed`: exact (`n·p` resp. `p / n`) when one base is a power of the other. -/
-def withBasePrecision (W : Nat) (fixed : Bool) (B NewB p : Nat) : Nat :=
+/-- the precision `FBig::with_base` hands to `with_base_and_precision`: exact (`n·p` resp. `p / n`)
+    when one base is a power of the other (fix 003ffef), the `f32` estimate otherwise -/
+def withBasePrecision (W : Nat) (B NewB p : Nat) : Nat :=
   let down := ilogExact B NewB
   let up := ilogExact NewB B
-  if fixed ∧ down > 1 then p * down
-  else if fixed ∧ up > 1 then p / up
+  if down > 1 then p * down
+  else if up > 1 then p / up
   else withBasePrecisionEst W B NewB p
 
 /-- the documented precision: the max `q` with `NewB^q ≤ B^p` -/
